@@ -199,6 +199,7 @@ def run(tier, argv):
                 chk.violation(ck, "; ".join(bad), {"program": pname(pg)})
         except Exception as ex:
             chk.violation(ck, f"raised {type(ex).__name__}: {str(ex).splitlines()[0][:140] if str(ex) else ''}", {"program": pname(pg)})
+    run_batched_sites(chk, tier)
     c = cases[len(cases) // 3]
     chk.sample({"program": pname(c[1]), "theta": str(fr(c[2])), "n_outcomes": len(c[3]), "first_outcome": str(c[3][0])[:300]})
     chk.cov["scripted_outcomes"] = n_script
@@ -209,3 +210,66 @@ def run(tier, argv):
                        "the exported flip_reinforce: observed (primal, tangent) pairs must be specification outcomes, means within 6.5 s.e.")
     chk.assumptions.append("(B) uses a 6.5 standard-error screen on seeded sample means (false-alarm probability ~1e-10 per case)")
     return chk.finish()
+
+
+# ======================================================================================================================
+# batched sites: flip_enum / flip_mvd over a vector or a matrix of probabilities (ADEVVec.tla)
+class _VecFlipDouble:
+    def __init__(self):
+        self.q = []
+
+    def sample(self, p, **kw):
+        b = self.q.pop(0)
+        return jnp.asarray(b, dtype=bool).reshape(jnp.shape(p))
+
+    def logpdf(self, *a, **k):
+        return D.flip.logpdf(*a, **k)
+
+
+def run_batched_sites(chk, tier):
+    A = np.array([1.0, 0.5, 0.25, 0.75], dtype=np.float32)
+    W = np.array([1.0, 2.0, 3.0, 4.0], dtype=np.float32)
+    saved = adev.flip
+    dbl = _VecFlipDouble()
+    try:
+        adev.flip = dbl
+        for cfg, shape in (("ADEVVec_2.cfg", (2,)), ("ADEVVec_4.cfg", (2, 2))):
+            res = tlc.run("ADEVVec", cfg, workers=1, timeout=1500)
+            chk.add_tlc(res, cfg + " (Unbiased)")
+            vcases = printed_values(res.stdout, '<<"VCASE"') + printed_values(res.stdout, '<< "VCASE"')
+            tlc.cleanup(res)
+            if len(vcases) != 3:
+                raise MachineryError(f"ADEVVec printed {len(vcases)} cases")
+            m = int(np.prod(shape))
+            a, w = jnp.asarray(A[:m].reshape(shape)), jnp.asarray(W[:m].reshape(shape))
+            for prim_name, prim in (("flip_enum", flip_enum), ("flip_mvd", flip_mvd)):
+                @expectation
+                def f(theta, prim=prim):
+                    b = prim(theta * a)
+                    bf = jnp.where(b, 1.0, 0.0)
+                    flat = jnp.reshape(bf, (-1,))
+                    return theta * jnp.sum(w * bf) + 5.0 * flat[0] * flat[-1]
+                for (_, mm, th, outs, exact) in vcases:
+                    theta = float(fr(th))
+                    for (b, prob, pval, tval) in outs:
+                        bl = [bool(x) for x in b]
+                        ck = f"adev-batched|{prim_name}|shape={shape}|theta={fr(th)}|b={''.join('1' if x else '0' for x in bl)}"
+                        chk.case(ck)
+                        chk.validated(1)
+                        dbl.q = [bl]
+                        try:
+                            d = f.jvp_estimate(Dual(jnp.asarray(theta, dtype=jnp.float32), jnp.asarray(1.0, dtype=jnp.float32)))
+                            wp, wt = float(fr(pval)), float(fr(tval))
+                            bad = []
+                            if dbl.q:
+                                bad.append("the batched site did not draw its outcome vector")
+                            if abs(float(d.primal) - wp) > 1e-4 * (1 + abs(wp)):
+                                bad.append(f"primal {float(d.primal)} expected {wp}")
+                            if abs(float(d.tangent) - wt) > 1e-4 * (1 + abs(wt)):
+                                bad.append(f"tangent {float(d.tangent)} expected {wt} (sum over outcomes of prob * tangent must be the exact derivative {float(fr(exact))})")
+                            if bad:
+                                chk.violation(ck, "; ".join(bad), {})
+                        except Exception as ex:
+                            chk.violation(ck, f"raised {type(ex).__name__}: {str(ex).splitlines()[0][:140] if str(ex) else ''}", {})
+    finally:
+        adev.flip = saved
